@@ -66,8 +66,26 @@ def _run_chunk(chunk):
         finally:
             signal.setitimer(signal.ITIMER_REAL, 0)
         r.extra["wall"] = time.time() - t0
+        for v in r.violations:
+            if not v.get("_ctx_done"):
+                v["key"] = tuple(v["key"] if isinstance(v["key"], (tuple, list)) else (v["key"],)) + context_of(v.get("item") if isinstance(v.get("item"), dict) else item)
+                v["_ctx_done"] = True
         out.append((idx, r))
     return out
+
+
+def context_of(item):
+    """the part of a finding's identity that says under which kind of deviation it shows: the layout operators applied, the
+    style, the configured option - so that a known finding of a rule under one kind of deviation does not mask the same
+    rule failing under another"""
+    if not isinstance(item, dict) or "seed" not in item:
+        return ()
+    ops = "+".join(sorted(o[0] for o in item.get("ops", ()))) or "-"
+    st = item.get("style")
+    cfg = item.get("id", "").split("%cfg:")[1].split("=")[0].split("~")[0] if "%cfg:" in item.get("id", "") else ""
+    if cfg:
+        cfg = cfg.split(".", 1)[1] if "." in cfg else cfg
+    return ("@" + ops + ("%" + st if st else "") + (" cfg:" + cfg if cfg else ""),)
 
 
 def item_id(item):
